@@ -644,3 +644,17 @@ Lemma mixed_history_facts :
      ONone; ORan 11 11; ONone; ONone; ONative 58; ONative 58; ONone; ONone;
      ORan 10 10; ORan 10 10; ORan 10 10].
 Proof. vm_compute. split; reflexivity. Qed.
+
+(* ---- the access table of call_site_cache regenerated from the source is the one the models are written
+   against: only opcode 78 reads the table, only 77 and 78 (miss path) write it, nothing outside the
+   dispatch arms reads or writes it (the two global setters clear it: SET_GLOBAL_CLEARS_CACHE), every fill
+   records its owner; 77 patches a site to 78 or 104, 104 patches it back to 77, 78 keeps its opcode *)
+Lemma access_table :
+  CACHE_READ_OPS = [OP_CALL_GLOBAL_MONO] /\
+  CACHE_WRITE_OPS = [OP_CALL_GLOBAL; OP_CALL_GLOBAL_MONO] /\
+  CACHE_OTHER_ACCESSES = 0 /\
+  SET_GLOBAL_CLEARS_CACHE = true /\ CACHE_FILLS_RECORD_OWNER = true /\
+  PATCHES_FROM_CALL_GLOBAL = [OP_CALL_GLOBAL_MONO; OP_CALL_GLOBAL_NATIVE] /\
+  PATCHES_FROM_CALL_GLOBAL_MONO = [] /\
+  PATCHES_FROM_CALL_GLOBAL_NATIVE = [OP_CALL_GLOBAL].
+Proof. repeat split; reflexivity. Qed.
